@@ -40,10 +40,10 @@ CLAIMS = {
   technique="contract-style read-frame obligations decided by SSA footprint analysis (no SMT)",
   design_ref="§6 C15"),
  "C09": dict(
-  category="other",
-  text="Narrow frame proof: no repository function reachable from NewTransform/Read invokes Read on an io.Reader; the input flows only into constructors of library readers, so no repository decision depends on chunk boundaries except through a library result.",
-  note="Assumed (and carrying most of the property): bufio, encoding/csv, encoding/xml, encoding/json, x/text charmap decoders, go-corelib BytesReplacingReader/scanner/StripBOM produce output that is a function of the byte content only. Alias validity of buffered lines/segments across source reads is not yet under contract.",
-  technique="contract-style frame obligation decided by SSA call-graph analysis (no SMT)",
+  category="proof",
+  text="(1) Frame proof: no repository function reachable from NewTransform/Read invokes Read on an io.Reader; the input flows only into constructors of library readers. (2) Alias validity, proved with ghost state on bufio.Reader (bufGen counts reads; a slice handed out by ByteReadLine is a window valid until the next read): every line the fixedlength2 reader keeps in its buffer is either an owned copy or the window of the most recent read (readLine/popFrontLinesBuf preserve it; every column value is cut from such a line), and the old fixed-length reader cuts column values only from the line it has just read.",
+  note="Assumed (and carrying most of the statement): bufio, encoding/csv, encoding/xml, encoding/json, x/text decoders, go-corelib BytesReplacingReader/scanner/StripBOM/ByteReadLine produce output that is a function of the byte content only. EDI segment buffers are not under contract.",
+  technique="contract-based deductive verification with ghost buffer generations (SMT) + SSA call-graph frame obligation",
   design_ref="§6 C09"),
  "C13": dict(
   category="proof",
@@ -59,7 +59,7 @@ CLAIMS = {
   design_ref="§6 C04"),
  "C17": dict(
   category="proof",
-  text="Release discipline of the XML/JSON stream readers and the ingester, proved for all call histories: Read releases the previously delivered target (its node object carries a newer ID afterwards: #ensures:releasePrev) and clears the handle before any parsing; Release clears the handle and releases the node; a rejected candidate is removed before the handle is dropped (wrapUp#ensures:rejected); the ingester keeps hold of every node the reader handed it, also when the transform of that record fails (ingester.Read#ensures:held), and releases it at the next Read. RemoveAndReleaseTree leaves every surviving node untouched except the links that pointed at the removed node.",
+  text="Release discipline proved for all call histories: both stream readers, their format-reader wrappers, the old fixed-length reader and the ingester: Read releases the previously delivered target (its node carries a newer ID afterwards) before parsing on, Release clears the reader's handle, a rejected candidate is removed from the tree before its handle is dropped, the readers' roots stay live; constructors establish the reader invariants.",
   note="The size bound over unbounded histories is the paper corollary of these per-call contracts. Known limitation recorded in DESIGN.md (F9): XML character data between records is attached to the enclosing element and is never removed; not yet expressed as an obligation. Hierarchy/EDI/fixed-length readers are not yet under contract for this property.",
   technique="contract-based deductive verification (SMT), ghost acquisition IDs",
   design_ref="§6 C17"),
@@ -89,14 +89,14 @@ CLAIMS = {
   design_ref="§6 C05"),
  "C06": dict(
   category="proof",
-  text="Partial, csv2 path: ColumnDecl.lineToColumnValue returns exactly the field at the declared index of the line's record (empty when the row is shorter), lineMatch selects by line_index / line_pattern as declared, NewReader configures encoding/csv with the first rune of the declared delimiter and with record-slice reuse whose aliasing is then handled by readLine: readLine copies the decoder's reused record into the reader-owned buffer (copied: every buffered field equals the field the decoder returned for that line, for all earlier lines too: kept/keptLines) and popFrontLinesBuf keeps the buffer's index arithmetic consistent (startOf/bufOK invariants, loop invariant over the compaction loop).",
-  note="RFC-4180 splitting itself is encoding/csv's (assumed; ghost lastField/lastLen name its result). Not yet under contract: linesToNode / header-footer matching of csv2, fixedlength2 rune slicing, old csv and old fixed-length readers; their fidelity is NOT claimed by this check.",
+  text="Proved for all inputs: (csv2) ColumnDecl.lineToColumnValue returns exactly the field at the declared index of the line's record (empty beyond the row), lineMatch selects by line_index/line_pattern, NewReader passes the first rune of the delimiter to encoding/csv, readLine copies the decoder's reused record into the reader-owned buffer and popFrontLinesBuf keeps the buffer's index arithmetic (representation invariant bufOK); (fixed-length, both packages) lineToColumnValue returns exactly the bytes of runes [start_pos-1, start_pos-1+length) of the line, against the recursive specification runeEnd written from the statement; (fixedlength2) every buffered line keeps its text across further reads and buffer compaction, an envelope's node is built from its own first n buffered lines only, lines are delivered in order; (old csv) a header that is unreadable, too short or mismatching is the fatal ErrInvalidHeader before any record, and each declared column's text node holds exactly record[i].",
+  note="RFC-4180 splitting itself is encoding/csv's and UTF-8 decoding utf8.DecodeRune's (assumed; ghost lastField/lastLen and spec width name their results). NOT under contract: csv2 linesToNode and header/footer matching. Schema-validation facts (non-nil column entries, valid regular expressions, rows >= 1) are preconditions.",
   technique="contract-based deductive verification: buffer representation invariant with quantified element heaps, loop invariants, SMT",
   design_ref="§6 C06"),
  "C16": dict(
   category="proof",
-  text="Per-call proof on the JSON, XML and csv2 paths that a source failure is fatal in the call that hits it: ghost srcFails(d) counts non-EOF errors returned by the underlying decoder/reader; JSONStreamReader/XMLStreamReader.parse and Read, the json/xml format-reader wrappers, csv2 readLine / readAndMatchRowsBasedRecord / Read and HierarchyReader.Read each ensure 'srcFails grew ==> the returned error is non-nil, not io.EOF and of the reader's fatal class', the seven IsContinuableError classifiers are proved to reject exactly those classes, NewTransform wires the ingester whose IsContinuableError is consulted, and transform.Read latches a non-continuable error (C01).",
-  note="Not yet under contract (NOT claimed): fixedlength2, EDI, old csv and old fixed-length readers; 'results before the fault equal the fault-free run' is the paper corollary of determinism (C15) and is not machine-checked. Assumed: decoder contracts in specs/extern (encoding/json, encoding/xml, encoding/csv return the source's error or a syntax error; srcFails bookkeeping).",
+  text="Per-call proof on the JSON, XML, csv2, fixedlength2 and old fixed-length paths that a source failure is fatal in the call that hits it: ghost srcFails(r) counts non-EOF errors of the underlying decoder/bufio reader; every layer (stream reader parse/Read, format-reader wrapper, readLine, record/envelope readers, HierarchyReader.Read, reader.Read) ensures 'srcFails grew ==> the returned error is non-nil, not io.EOF and of the reader's fatal class' and 'every error returned is io.EOF or the fatal class'; the seven IsContinuableError classifiers are proved to reject exactly those classes; transform.Read latches a non-continuable error (C01). The old csv reader FAILS this (known finding F4b, two obligations, replay test in findings/).",
+  note="Not under contract (NOT claimed): the EDI readers. 'Results before the fault equal the fault-free run' is the paper corollary of determinism (C15). Assumed: decoder contracts in specs/extern (a decoder error is the source's error or a data error; srcFails bookkeeping).",
   technique="contract-based deductive verification with a ghost failure counter on the source, SMT",
   design_ref="§6 C16"),
 }
